@@ -700,6 +700,11 @@ def wasm_agree(prop, case, agg, units=None):
                     agg.stats["globals-not-settable-in-wasm"] += 1
                 if vm[0] == "ok":
                     v = vm[1]
+                    if v is None and case.get("ret", "void") != "void":
+                        # control fell off the end of a function that has a result: the VM hands back nothing at all, which no
+                        # wasm function of that signature can do - the source program has no defined result there
+                        agg.stats["unspecified:no return executed in a function with a result"] += 1
+                        continue
                     if isinstance(v, float):
                         if f32(v) != v:
                             agg.stats["unspecified:VM float result not exact in binary32"] += 1
